@@ -15,15 +15,18 @@ Definition prefix_ok (s : schema) (v : value) : Prop :=
   forall tr pre, fs_paths s tr pre v = (fse s tr v, map (app pre) (fsp s tr v)).
 
 Definition item_err (s : schema) (t : listT) (dups : pes) (x : value) : bool :=
-  match list_item_to_pe s t x with
-  | None => true
-  | Some e => if pes_has e dups then false else fse s (list_elem t) x
-  end.
+  let e := list_item_pe_or_zero s t x in
+  if pes_has e dups then false else fse s (list_elem t) x.
 Definition item_paths (s : schema) (t : listT) (dups : pes) (x : value) : list path :=
-  match list_item_to_pe s t x with
-  | None => []
-  | Some e => if pes_has e dups then [] else map (cons e) (fsp s (list_elem t) x ++ [[]])
-  end.
+  let e := list_item_pe_or_zero s t x in
+  if pes_has e dups then [] else map (cons e) (fsp s (list_elem t) x ++ [[]]).
+
+Lemma item_err_some : forall s t dups x e, list_item_to_pe s t x = Some e ->
+  item_err s t dups x = if pes_has e dups then false else fse s (list_elem t) x.
+Proof. intros s t dups x e H. unfold item_err. rewrite (list_item_pe_or_zero_some s t x e H). reflexivity. Qed.
+Lemma item_paths_some : forall s t dups x e, list_item_to_pe s t x = Some e ->
+  item_paths s t dups x = if pes_has e dups then [] else map (cons e) (fsp s (list_elem t) x ++ [[]]).
+Proof. intros s t dups x e H. unfold item_paths. rewrite (list_item_pe_or_zero_some s t x e H). reflexivity. Qed.
 Definition own0 (t : mapT) (k : string) (child : value) : list path :=
   match child with
   | VNull => [[]]
@@ -45,12 +48,11 @@ Lemma pass1_prefix : forall s t pre l seen dups acc err,
 Proof.
   intros s t pre l. induction l as [|x l IH]; intros seen dups acc err.
   - reflexivity.
-  - simpl. destruct (list_item_to_pe s t x) as [e|].
-    + destruct (pes_has e seen).
-      * destruct (pes_has e dups).
-        -- apply IH.
-        -- rewrite <- IH. rewrite map_app. reflexivity.
+  - cbn [fs_pass1]. cbv zeta. set (e := list_item_pe_or_zero s t x).
+    destruct (pes_has e seen).
+    + destruct (pes_has e dups).
       * apply IH.
+      * rewrite <- IH. rewrite map_app. reflexivity.
     + apply IH.
 Qed.
 
@@ -68,17 +70,7 @@ Proof.
   intros s t pre dups l H. induction H as [|x l Hx Hl IH].
   - reflexivity.
   - cbn [fs_pass2 existsb flat_map]. rewrite IH.
-    change (item_err s t dups x) with
-      (match list_item_to_pe s t x with
-       | None => true
-       | Some e => if pes_has e dups then false else fse s (list_elem t) x
-       end).
-    change (item_paths s t dups x) with
-      (match list_item_to_pe s t x with
-       | None => []
-       | Some e => if pes_has e dups then [] else map (cons e) (fsp s (list_elem t) x ++ [[]])
-       end).
-    destruct (list_item_to_pe s t x) as [e|]; [|reflexivity].
+    unfold item_err, item_paths. cbv zeta. set (e := list_item_pe_or_zero s t x).
     destruct (pes_has e dups); [reflexivity|].
     rewrite (Hx (list_elem t) (pre ++ [e])). f_equal.
     rewrite !map_app, !map_map. simpl. rewrite <- !app_assoc. simpl.
